@@ -234,6 +234,36 @@ Definition unregister (s : state) (c : conn) (sc : scope) : state :=
   | _ => set_tbl s (map (mem_unsub c sc) (tbl s))
   end.
 
+(* Dispatcher.unsubscribe(conn, eventname) transcribed statement by statement (what handle_deactivate calls for a
+   specifier):
+       if ':' not in eventname:                                  -- a module event
+           for k, v in self._subscriptions.items():             -- ALWAYS: every entry of the table, whether or not the
+               if k.startswith(f'{eventname}:'):                    bare event itself has an entry
+                   v.discard(conn)
+       if eventname in self._subscriptions:                      -- the entry of the event itself, if there is one
+           self._subscriptions[eventname].discard(conn)             (keys of a dict are unique: at most one)
+   `unregister` above is the same function (Unsubscribe.v: unregister_is_code). *)
+Definition below (m : nat) (key : scope) : bool := match key with SP m' _ => Nat.eqb m m' | _ => false end.
+Definition mem_remc (c : conn) (e : sentry) : sentry := {| e_id := e_id e; e_key := e_key e; e_mem := remc c (e_mem e) |}.
+Definition discard_below (c : conn) (m : nat) (t : list sentry) : list sentry :=
+  map (fun e => if below m (e_key e) then mem_remc c e else e) t.
+Definition discard_event (c : conn) (sc : scope) (t : list sentry) : list sentry :=
+  map (fun e => if scope_eqb (e_key e) sc then mem_remc c e else e) t.
+Definition unsubscribe_code (s : state) (c : conn) (sc : scope) : state :=
+  match sc with
+  | SG => s                                                           (* not called without specifier *)
+  | SM m => set_tbl s (discard_event c sc (discard_below c m (tbl s)))
+  | SP _ _ => set_tbl s (discard_event c sc (tbl s))
+  end.
+(* NOT what the code does (only used in Refuted.v): the variant that returns early when the event has no entry in the
+   table (`conns = self._subscriptions.get(eventname); if conns is None: return`), skipping the loop over the more
+   specific events *)
+Definition unsubscribe_early_return (s : state) (c : conn) (sc : scope) : state :=
+  match find_key sc (tbl s) with
+  | None => s
+  | Some _ => unsubscribe_code s c sc
+  end.
+
 (* ---- one step of a connection thread *)
 (* go on to the next module of the snapshot, or leave the handler (release Dispatcher._lock) with the reply *)
 Definition enter_groups (s : state) (c : conn) (sc : scope) (groups : list (nat * list nat)) : state :=
